@@ -118,7 +118,27 @@ func (s *vStore) GetDeployStatus(context.Context, string, string) (map[string]in
 	if s.w.fault("store.GetDeployStatus") {
 		return nil, vErrInjected
 	}
-	return map[string]int{}, nil
+	out := map[string]int{}
+	if s.w.countStatus {
+		for n := range s.nodes {
+			if k := vDeployCount(s.w, n); k != 0 {
+				out[n] = k
+			}
+		}
+	}
+	return out, nil
+}
+
+// vDeployCount: what the store reports as the node's deploy status - recorded
+// workloads of the application entrypoint plus the in-progress marker.
+func vDeployCount(w *vWorld, node string) int {
+	k := w.processing[node]
+	for _, wl := range w.st.workloads {
+		if wl.Nodename == node {
+			k++
+		}
+	}
+	return k
 }
 
 func (s *vStore) CreateProcessing(_ context.Context, p *types.Processing, count int) error {
